@@ -325,4 +325,9 @@ def run(ctx):
         ctx.run("C13-F3", "scientific coordinate provider: rounding flag and like-coordinate pairing (symmetric, zero diagonal by construction)", c13.f3_rounding_flag, floor=2)
     except (ImportError, AttributeError):
         pass
+    try:
+        from . import c03
+        ctx.run("C03-L1", "distance and duration of a leg are queried for the same (from, to, departure) in every body that asks for both (incl. TransportCost::cost)", c03.l1_leg_queries_agree, floor=4)
+    except (ImportError, AttributeError):
+        pass
     ctx.run("C16-F3", "build-time rejection: consistency checks present in every provider constructor", f3_build_time_rejection, floor=8)
